@@ -316,6 +316,30 @@ async fn gen_proc(sim: &mut Sim, rng: &mut Prng, stats: &mut Stats, name: &str) 
                     let i = sim.nodes.len();
                     join(sim, rng, i);
                     stats.bump("op_join_late");
+                } else if sim.nodes.len() < 6 && rng.chance(1, 2) {
+                    // restart: a new incarnation of an existing member (same node id and address,
+                    // next generation); the previous incarnation stops acting from now on only in
+                    // the sense that peers will see it silent if the schedule no longer picks it
+                    let j = rng.below(sim.nodes.len() as u64) as usize;
+                    let old = sim.nodes[j].spec.id.clone();
+                    // every ChitchatId is used by at most one incarnation
+                    let next_gen = sim
+                        .nodes
+                        .iter()
+                        .filter(|nd| nd.spec.id.node_id == old.node_id)
+                        .map(|nd| nd.spec.id.generation_id)
+                        .max()
+                        .unwrap_or(0)
+                        + 1;
+                    let mut spec = NodeSpec::simple(ChitchatId::new(
+                        old.node_id.clone(),
+                        next_gen,
+                        old.gossip_advertise_addr,
+                    ));
+                    spec.kv_grace_ns = kv_grace;
+                    spec.dead_grace_ns = dead_grace;
+                    sim.join(spec);
+                    stats.bump("op_restart_new_generation");
                 }
             }
         }
@@ -984,7 +1008,7 @@ const UNIT: u64 = 1_953_125;
 
 pub async fn gen_fd(sim: &mut Sim, rng: &mut Prng, stats: &mut Stats, name: &str) {
     sim.start_case(name);
-    let mut spec = NodeSpec::simple(mk_id("r", 0, 6000));
+    let mut spec = NodeSpec::simple(mk_id("r", 8, 6000));
     let (pn, pd) = *rng.pick(&[(1i64, 2i64), (1, 1), (2, 1), (8, 1), (16, 1), (3, 2), (5, 1)]);
     spec.phi_num = pn;
     spec.phi_den = pd;
@@ -999,9 +1023,11 @@ pub async fn gen_fd(sim: &mut Sim, rng: &mut Prng, stats: &mut Stats, name: &str
     let dead_grace = spec.dead_grace_ns;
     let max_iv = spec.max_interval_ns;
     sim.join(spec);
-    let members = [mk_id("x", 0, 6001), mk_id("y", 3, 6002)];
+    // x, y: ordinary peers; the third is a previous incarnation of the receiver itself (same
+    // node id and address, older generation), as seen after a restart
+    let members = [mk_id("x", 0, 6001), mk_id("y", 3, 6002), mk_id("r", 7, 6000)];
     let wids: Vec<WId> = members.iter().map(wid_of).collect();
-    let mut hb = [0u64, 0u64];
+    let mut hb = [0u64, 0u64, 0u64];
     let steady = rng.chance(1, 3);
     let steady_dt = UNIT * *rng.pick(&[16u64, 64, 256]);
     let nops = rng.range(8, 60);
